@@ -155,12 +155,19 @@ void execute_c02(const Plan &plan, Verdict &v) {
     g_alloc = AllocCtl();
     {
         World w(cfg);
+        // entries 0..nA-1 form the table the context starts with, entries nA.. (ops `pat2`) a second table; an entry whose
+        // second argument is set has a handler that points the context at the other table (SYSTem:LANGuage style)
         std::vector<Pat> pats;
         std::vector<std::string> patstr;
         std::vector<bool> is_null;
+        std::vector<bool> switches;
+        std::vector<int> table_of;
+        for (int pass = 0; pass < 2; pass++)
         for (const Op &op : plan.ops)
-            if (op.kind == "pat" && op.has_s && patstr.size() < 40) {
+            if (op.kind == (pass ? "pat2" : "pat") && op.has_s && patstr.size() < 40) {
                 is_null.push_back(op.arg(0) != 0);   // entry with a NULL callback: a defined header with no action
+                switches.push_back(op.arg(1) != 0 && op.arg(0) == 0);
+                table_of.push_back(pass);
                 Pat p = parse_pattern(op.s);
                 if (!p.ok) {
                     v.trace_hash = 2;   // not a pattern of the supported grammar: inert plan
@@ -179,19 +186,28 @@ void execute_c02(const Plan &plan, Verdict &v) {
                 pats.push_back(p);
                 patstr.push_back(op.s);
             }
-        if (pats.empty()) {
+        if (pats.empty() || table_of[0] != 0) {
             v.trace_hash = 2;
             g_alloc = AllocCtl();
             return;
         }
         std::vector<int> seen_tags;
+        int cur_table = 0;   // which table the context points at (model side; toggled by the handlers below)
+        bool have_alt = table_of.back() == 1;
         for (size_t i = 0; i < pats.size(); i++) {
             std::string canon = canonical_spelling(pats[i]);
+            w.filling_alt = table_of[i] == 1;
             if (is_null[i]) {
                 w.add_null_command(patstr[i]);
                 continue;
             }
-            w.add_command(patstr[i], [&w, &v, i, canon](World &ww) {
+            bool sw = switches[i] && have_alt;
+            w.add_command(patstr[i], [&w, &v, i, canon, sw, &cur_table](World &ww) {
+                if (sw) {
+                    cur_table ^= 1;
+                    ww.use_alt_table(cur_table == 1);
+                    COUNT("fault_handler_switches_command_table");
+                }
                 // the handler can recover the matched entry: tag and pattern test
                 if (!v.violated && SCPI_CmdTag(ww.ctx) != (int32_t) i)
                     v.fail("tag-mismatch", fmt("tag=%d want=%zu", (int) SCPI_CmdTag(ww.ctx), i), "SCPI_CmdTag does not identify the running table entry");
@@ -201,6 +217,7 @@ void execute_c02(const Plan &plan, Verdict &v) {
                 return SCPI_RES_OK;
             });
         }
+        w.filling_alt = false;
         w.seal();
 
         std::vector<long> cuts;
@@ -309,15 +326,20 @@ void execute_c02(const Plan &plan, Verdict &v) {
             std::vector<Exp> exp;
             std::string prev;
             bool have_prev = false;
+            int model_table = cur_table;   // every unit is looked up in the table the context holds when the unit starts
             for (auto &u : units) {
                 Exp e;
                 e.eff = effective_header(prev, have_prev, u.written);
                 e.entry = -1;
                 for (size_t i = 0; i < pats.size(); i++)
-                    if (accepts(pats[i], e.eff)) {
+                    if (table_of[i] == model_table && accepts(pats[i], e.eff)) {
                         e.entry = (int) i;
                         break;
                     }
+                if (e.entry >= 0 && switches[(size_t) e.entry] && have_alt && !is_null[(size_t) e.entry]) {
+                    model_table ^= 1;
+                    if (&u != &units.back()) COUNT("probe_unit_after_table_switch");
+                }
                 exp.push_back(e);
                 prev = e.eff;
                 have_prev = true;
@@ -526,9 +548,23 @@ void generate_c02(Rng &r, const GenOpts &g, Plan &p) {
     }
     std::vector<Pat> pats;
     bool null_entries = r.chance(1, 3);
+    bool two_tables = r.chance(1, 5);   // an instrument with two command sets and handlers that switch between them
     for (auto &t : table) {
-        p.ops.push_back(Op("pat", {(null_entries && r.chance(1, 4)) ? 1L : 0L}, t));
+        p.ops.push_back(Op("pat", {(null_entries && r.chance(1, 4)) ? 1L : 0L, (two_tables && r.chance(1, 3)) ? 1L : 0L}, t));
         pats.push_back(parse_pattern(t));
+    }
+    if (two_tables) {
+        // the second set shares some entries with the first (possibly at other positions), drops some and adds some
+        std::vector<std::string> t2;
+        for (auto &t : table)
+            if (r.chance(1, 2)) t2.push_back(t);
+        long extra = r.range(1, 4);
+        for (long i = 0; i < extra; i++) t2.push_back(r.chance(1, 6) ? std::string(COMMON[r.below(sizeof COMMON / sizeof COMMON[0])]) : std::string(POOL[r.below(NPOOL)]) + (r.chance(1, 2) ? "?" : ""));
+        for (size_t i = t2.size(); i > 1; i--) std::swap(t2[i - 1], t2[r.below(i)]);
+        for (auto &t : t2) {
+            p.ops.push_back(Op("pat2", {(null_entries && r.chance(1, 4)) ? 1L : 0L, r.chance(1, 3) ? 1L : 0L}, t));
+            pats.push_back(parse_pattern(t));
+        }
     }
     if (r.chance(1, 5)) p.knob["inbuf"] = r.range(80, 160);
     long nm = r.chance(1, 2) ? 1 : r.range(2, 6);
